@@ -195,6 +195,107 @@ def check_case(case):
         "sample": {"callee": safe_str(f), "before": safe_str(p1), "after": safe_str(p2), "kind": label},
     }
 
+# --------------------------------------------------------------------------- #
+# library instructions: every x86 @instr J is offered every block that is an instance of the
+# body of instruction I (obtained by inlining I in the C14 wrapper)
+
+_instr_cache = {}
+
+
+def _instr_instance(I, variant):
+    """-> (wrapper w, p1 = w with the call of I inlined and aliases dissolved, (lo, hi) block range)"""
+    import exo.stdlib.scheduling as S
+    from . import c14
+
+    key = (I, variant)
+    if key in _instr_cache:
+        return _instr_cache[key]
+    try:
+        w, info = c14.wrapper_for(I, variant)
+        ir = w.INTERNAL_proc()
+        pos, n_post = info["call_pos"], info["n_post"]
+        n0 = len(ir.body)
+        p1 = S.inline(w, w.body()[pos])
+        for _ in range(8):
+            st1, _e = sched.collect(p1.INTERNAL_proc())
+            ws = [x for x in st1 if x.kind == "WindowStmt" and len(x.path) == 1]
+            if not ws:
+                break
+            p1 = S.inline_window(p1, sched.cursor_at(p1, ws[0].path))
+        n1 = len(p1.INTERNAL_proc().body)
+        res = (w, info, p1, (pos, n1 - n_post - 1))
+    except Skip:
+        res = None
+    except rejection_types():
+        res = None
+    _instr_cache[key] = res
+    return res
+
+
+def check_instr_pair(case):
+    import exo.stdlib.scheduling as S
+    import exo.platforms.x86 as X
+    import io, contextlib
+    from . import c14
+
+    names = c14.instr_names()
+    I, J = names[case["i"] % len(names)], names[case["j"] % len(names)]
+    inst = _instr_instance(I, case["variant"] % 3)
+    if inst is None:
+        raise Skip("no-instance")
+    w, info, p1, (lo, hi) = inst
+    if hi < lo:
+        raise Skip("empty-body")
+    f = getattr(X, J)
+    blk = p1.body()[lo : hi + 1]
+    label = "instr-same" if I == J else "instr-other"
+    try:
+        with contextlib.redirect_stdout(io.StringIO()):
+            p2 = S.replace(p1, blk, f, quiet=True)
+    except rejection_types():
+        if CTX is not None:
+            CTX.op("replace:" + label, "rejected")
+        return {"nontrivial": False, "digest": None, "classes": ["unify-failed", label], "sample": None}
+    except (KeyboardInterrupt, SystemExit, MemoryError):
+        raise
+    except BaseException as e:  # noqa
+        if CTX is not None:
+            CTX.op("replace:" + label, "internal")
+        return {"nontrivial": False, "digest": None, "classes": ["unify-internal-error:" + type(e).__name__, label], "sample": None}
+    if CTX is not None:
+        CTX.op("replace:" + label, "accepted")
+    ir1, ir2 = p1.INTERNAL_proc(), p2.INTERNAL_proc()
+    where = f"replace(instance of {I}, {J})\n--- wrapper with {I} inlined:\n{safe_str(p1)}\n--- after replace:\n{safe_str(p2)}\n--- {J}:\n{safe_str(f)}"
+    adm = c14.admissible_sizes(w.INTERNAL_proc(), info["sizes"]) if info["sizes"] else [{}]
+    n_cmp = 0
+    for ctrl in adm[:16]:
+        for fill in (1, 3):
+            fv = {"ctrl": ctrl, "fill": fill, "layout": 0, "dense": True, "config": {}}
+            o1 = run_outcome(ir1, fv)
+            if o1.unsafe is not None or o1.limit:
+                continue
+            o2 = run_outcome(ir2, fv)
+            bad = compare_outcomes(o1, o2)
+            if not bad and o2.bufs is not None:
+                bad = compare_outcomes(o2, o1)
+            if bad:
+                raise Violation({"kind": bad[0], "callee": label, "instr": J}, f"{where}\ninput {json.dumps(fv)}: {bad[1]}")
+            n_cmp += 1
+    if n_cmp == 0:
+        raise Skip("no-comparable-input")
+    return {
+        "nontrivial": True,
+        "digest": {"i": I, "j": J, "v": case["variant"] % 3},
+        "classes": ["replaced", label],
+        "sample": {"instance_of": I, "replaced_by": J, "after": safe_str(p2)},
+    }
+
+
+def check_any(case):
+    if case.get("kind") == "instr":
+        return check_instr_pair(case)
+    return check_case(case)
+
 
 def case_strategy():
     prep = st.tuples(st.sampled_from(["simplify", "inline_window", "simplify", "divide_loop", "reorder_stmts", "unroll_loop", "cut_loop", "shift_loop"]), st.integers(0, 20), st.integers(0, 11), st.integers(0, 23)).map(list)
@@ -234,4 +335,21 @@ def run(ctx):
                                     yield {"prog": prog, "call": call, "prep": [], "mode": mode, "k1": k1, "k2": k2, "blk": 0, "start": start, "blen": blen, "val": val}
 
     run_systematic(ctx, sys_cases(), guarded(ctx, check_case), keep_one_in=2 if ctx.tier == "quick" else 1, label="template-blocks")
-    run_cases(ctx, case_strategy(), guarded(ctx, check_case), ctx.budget(3000, 100000))
+
+    def instr_pairs():
+        from . import c14
+
+        n = len(c14.instr_names())
+        for v in (0, 1, 2):
+            for i in range(n):
+                for j in range(n):
+                    yield {"kind": "instr", "i": i, "j": j, "variant": v}
+
+    # shard by instruction I (the inlined instance is cached per process)
+    def mine(cases):
+        for c in cases:
+            if c["i"] % ctx.nshards == ctx.shard:
+                yield c
+
+    run_systematic(ctx, mine(instr_pairs()), guarded(ctx, check_any), keep_one_in=1, label="x86-instr-pairs", presharded=True)
+    run_cases(ctx, case_strategy(), guarded(ctx, check_case), ctx.budget(3000, 24000))
